@@ -592,6 +592,9 @@ func main() {
 	if want("gen") || want("fuzz") {
 		fuzz(r, *par, *nflag, *only)
 	}
+	if want("gen") {
+		linkedModulesStage()
+	}
 	rep.Write(orc)
 }
 
